@@ -85,6 +85,7 @@ const (
 	c25sLoss
 	c25sDown
 	c25sUp
+	c25sGlitch
 	c25sSnap
 	c25sRestart
 	c25sOtherAll
@@ -94,7 +95,7 @@ const (
 )
 
 var c25sNames = [...]string{"feed", "same-entry", "tick", "long-tick", "leader-gain", "leader-loss",
-	"endpoint-down", "endpoint-up", "snapshot-sync", "restart", "other-leader-delivers-all",
+	"endpoint-down", "endpoint-up", "endpoint-fails-once", "snapshot-sync", "restart", "other-leader-delivers-all",
 	"other-leader-delivers-1", "other-leader-delivers-ahead"}
 
 func (a c25sAct) String() string { return c25sNames[a] }
@@ -129,17 +130,19 @@ type c25sGroup struct {
 }
 
 // c25sTransport is the endpoint: an in-memory RoundTripper that can be down
-// (alternating transport error / HTTP 503) or up (alternating 200 / 202) and
-// records every batch it accepted.
+// (alternating transport error / HTTP 503), up (alternating 200 / 202) or up but
+// failing the next request only, and records every batch it accepted.
 type c25sTransport struct {
 	w             *c25sWorld
 	up            bool
+	failNext      int // while up: this many further requests fail
 	nAttempts     int
 	nFail         int
 	nOK           int
 	tenureMaxIdx  uint64 // highest group index delivered in the current tenure
 	tenureMaxHi   uint64 // highest batch maximum delivered in the current tenure
 	lastAttemptHi uint64 // highest batch maximum attempted by the current incarnation
+	tenAttemptHi  uint64 // highest batch maximum attempted in the current tenure
 	newDeliveries [][]int
 }
 
@@ -167,7 +170,13 @@ func (tr *c25sTransport) RoundTrip(req *http.Request) (*http.Response, error) {
 	if hi > tr.lastAttemptHi {
 		tr.lastAttemptHi = hi
 	}
-	if !tr.up {
+	if hi > tr.tenAttemptHi {
+		tr.tenAttemptHi = hi
+	}
+	if !tr.up || tr.failNext > 0 {
+		if tr.up {
+			tr.failNext--
+		}
 		tr.nFail++
 		if tr.nFail%2 == 1 {
 			return nil, errors.New("c25s: endpoint unreachable")
@@ -423,7 +432,7 @@ func (w *c25sWorld) onDelivery(env *cdcjson.CDCMessagesEnvelope, hi uint64) {
 	tr.newDeliveries = append(tr.newDeliveries, ords)
 }
 
-func (w *c25sWorld) newTenure() { w.tr.tenureMaxIdx, w.tr.tenureMaxHi = 0, 0 }
+func (w *c25sWorld) newTenure() { w.tr.tenureMaxIdx, w.tr.tenureMaxHi, w.tr.tenAttemptHi = 0, 0, 0 }
 
 func (w *c25sWorld) groupsOfLast() int {
 	n := 0
@@ -450,6 +459,7 @@ func (w *c25sWorld) enabled() []int {
 	add(c25sLoss, w.leader)
 	add(c25sDown, w.tr.up)
 	add(c25sUp, !w.tr.up)
+	add(c25sGlitch, w.tr.up && w.tr.failNext == 0)
 	add(c25sSnap, w.maxFed > w.snapIdx)
 	add(c25sRestart, true)
 	add(c25sOtherAll, !w.leader && w.maxFed >= 1 && w.kOther < w.maxFed)
@@ -522,6 +532,8 @@ func (w *c25sWorld) apply(a c25sAct) error {
 		w.tr.up = false
 	case c25sUp:
 		w.tr.up = true
+	case c25sGlitch:
+		w.tr.failNext = 1
 	case c25sSnap:
 		if err := w.cl.RequestSnapshotSync(time.Second); err != nil {
 			w.snapTimeouts++ // the store aborts the snapshot: nothing is truncated
@@ -584,7 +596,8 @@ func (w *c25sWorld) fifoContent() (string, map[int]bool) {
 // enabledness of actions depend on, plus what is observable of the real service
 // at a quiescent point: roles, HWM, durable FIFO content and highest-ever key,
 // whether the FIFO still has something to offer, the highest batch this
-// incarnation already took out of the FIFO, which groups sit in the batcher, the
+// incarnation already took out of the FIFO and the highest one the current leader
+// loop tried to send (it may still be holding it), which groups sit in the batcher, the
 // node's own HWM broadcasts still queued for its next follower loop, and the
 // highest HWM update the running follower loop accepted.
 func (w *c25sWorld) key() string {
@@ -599,9 +612,9 @@ func (w *c25sWorld) key() string {
 	}
 	fifo, _ := w.fifoContent()
 	hk, _ := w.svc.fifo.HighestKey()
-	tmax := uint64(0)
+	tmax, tatt := uint64(0), uint64(0)
 	if w.leader {
-		tmax = w.tr.tenureMaxIdx
+		tmax, tatt = w.tr.tenureMaxIdx, w.tr.tenAttemptHi
 	}
 	// HWM values still queued in the node's own HWM channel (own broadcasts, read by the next follower loop)
 	var selfQ []uint64
@@ -613,9 +626,9 @@ func (w *c25sWorld) key() string {
 	if !w.leader && w.svc.hwmFollowerUpdated.Load() > w.fBase {
 		fp = w.svc.HighWatermark()
 	}
-	return fmt.Sprintf("L%t U%t fed[%s] snap%d other%d lwf%t dl%s tmax%d hwm%d fifo{%s} hi%d next%t att%d pend%v selfq%v fp%d",
-		w.leader, w.tr.up, fed.String(), w.snapIdx, w.kOther, w.lastWasFeed, dl.String(), tmax,
-		w.svc.HighWatermark(), fifo, hk, w.svc.fifo.HasNext(), w.tr.lastAttemptHi, w.pending, selfQ, fp)
+	return fmt.Sprintf("L%t U%t/%d fed[%s] snap%d other%d lwf%t dl%s tmax%d hwm%d fifo{%s} hi%d next%t att%d/%d pend%v selfq%v fp%d",
+		w.leader, w.tr.up, w.tr.failNext, fed.String(), w.snapIdx, w.kOther, w.lastWasFeed, dl.String(), tmax,
+		w.svc.HighWatermark(), fifo, hk, w.svc.fifo.HasNext(), w.tr.lastAttemptHi, tatt, w.pending, selfQ, fp)
 }
 
 func (w *c25sWorld) settle() bool {
@@ -649,7 +662,7 @@ func (w *c25sWorld) missing() []*c25sGroup {
 // closing evaluates O1 from the current state: leader, endpoint up, time passes.
 func (w *c25sWorld) closing() (outcome string, notQuiescent bool) {
 	w.tr.newDeliveries = nil
-	w.tr.up = true
+	w.tr.up = true // a pending fails-once stays: the first request of the closing fails and is retried
 	if !w.leader {
 		w.newTenure()
 		w.leader = true
@@ -737,6 +750,7 @@ type c25sReply struct {
 	SnapTimeouts int       `json:"snap_timeouts,omitempty"`
 	NotQuiescent bool      `json:"not_quiescent,omitempty"`
 	Disabled     bool      `json:"disabled,omitempty"`
+	Skipped      bool      `json:"skipped,omitempty"` // not run: the time budget was used up
 }
 
 // c25sExec runs one history on a fresh real service in a bubble.
@@ -804,6 +818,9 @@ func c25sExec(t *testing.T, base string, job c25sJob) (rep c25sReply) {
 }
 
 func c25sScratchBase(t *testing.T) string {
+	if d := os.Getenv("VERIF_C25S_BASE"); d != "" { // a worker: the parent owns (and removes) the directory
+		return d
+	}
 	if st, err := os.Stat("/dev/shm"); err == nil && st.IsDir() {
 		if d, err := os.MkdirTemp("/dev/shm", "verif-c25s-"); err == nil {
 			t.Cleanup(func() { os.RemoveAll(d) })
@@ -873,7 +890,6 @@ func c25sChild(t *testing.T) {
 			b, _ := json.Marshal(rep)
 			fmt.Fprintf(os.Stdout, "%s%s\n", c25sReplyPrefix, b)
 			if rep.Fatal != "" {
-				os.RemoveAll(base)
 				os.Exit(3) // goroutines of the failed bubble may be left behind: start clean
 			}
 		}
@@ -890,9 +906,9 @@ type c25sWorker struct {
 	stderr *bytes.Buffer
 }
 
-func c25sSpawn() (*c25sWorker, error) {
+func c25sSpawn(base string) (*c25sWorker, error) {
 	cmd := exec.Command(os.Args[0], "-test.run", "^TestVerif_C25_service$", "-test.timeout", "60m")
-	cmd.Env = append(os.Environ(), "VERIF_C25S_CHILD=1", "GOMAXPROCS=2", "VERIF_REPLAY=", "VERIF_OUT=")
+	cmd.Env = append(os.Environ(), "VERIF_C25S_CHILD=1", "VERIF_C25S_BASE="+base, "GOMAXPROCS=2", "VERIF_REPLAY=", "VERIF_OUT=")
 	in, err := cmd.StdinPipe()
 	if err != nil {
 		return nil, err
@@ -941,10 +957,11 @@ func c25sTail(s string, n int) string {
 // c25sPool runs jobs on persistent child processes (a bbolt open/close per history:
 // threads of one process serialise on the address-space lock, processes do not).
 type c25sPool struct {
-	n int
+	n    int
+	base string // scratch directory shared by the workers (each history gets its own subdirectory)
 }
 
-func (p *c25sPool) run(t *testing.T, jobs []c25sJob) []c25sReply {
+func (p *c25sPool) run(t *testing.T, jobs []c25sJob, stop func() bool) []c25sReply {
 	reps := make([]c25sReply, len(jobs))
 	ch := make(chan int, len(jobs))
 	for i := range jobs {
@@ -965,9 +982,13 @@ func (p *c25sPool) run(t *testing.T, jobs []c25sJob) []c25sReply {
 				}
 			}()
 			for i := range ch {
+				if stop != nil && stop() {
+					reps[i] = c25sReply{ID: jobs[i].ID, Skipped: true}
+					continue
+				}
 				if wk == nil {
 					var err error
-					if wk, err = c25sSpawn(); err != nil {
+					if wk, err = c25sSpawn(p.base); err != nil {
 						mu.Lock()
 						fault = err
 						mu.Unlock()
@@ -1057,7 +1078,7 @@ func c25sSearch(t *testing.T, r *kit.Run, pool *c25sPool, ph c25sPhase, multi bo
 	replay := func(h []int) c25sReplay { return c25sReplay{ph.BatchSz, c25sHistNames(h)} }
 	seen := map[uint64]bool{}
 	succOf := map[uint64]map[int]succ{} // successors of every state's representative, by (hashed) state key
-	root := pool.run(t, []c25sJob{{H: nil, BatchSz: ph.BatchSz, Multi: multi}})[0]
+	root := pool.run(t, []c25sJob{{H: nil, BatchSz: ph.BatchSz, Multi: multi}}, nil)[0]
 	r.Eval(1)
 	if root.Fatal != "" {
 		t.Fatalf("C25 service harness: empty history failed: %s", root.Fatal)
@@ -1084,9 +1105,18 @@ func c25sSearch(t *testing.T, r *kit.Run, pool *c25sPool, ph c25sPhase, multi bo
 				parent = append(parent, pi)
 			}
 		}
-		reps := pool.run(t, jobs)
+		var stop func() bool
+		if ph.Budgeted {
+			stop = r.OverBudget
+		}
+		reps := pool.run(t, jobs, stop)
 		var next []node
-		newStates, spots := 0, 0
+		newStates, spots, skipped := 0, 0, 0
+		for _, rep := range reps {
+			if rep.Skipped {
+				skipped++
+			}
+		}
 		// first the representatives, then the spot checks (which compare against them)
 		for pass := 0; pass < 2; pass++ {
 			for i, rep := range reps {
@@ -1096,6 +1126,9 @@ func c25sSearch(t *testing.T, r *kit.Run, pool *c25sPool, ph c25sPhase, multi bo
 				}
 				h := jobs[i].H
 				a := h[len(h)-1]
+				if rep.Skipped {
+					continue
+				}
 				if rep.Fatal != "" {
 					c25sFatalVio(r, ph.BatchSz, h, rep.Fatal)
 					continue
@@ -1144,6 +1177,11 @@ func c25sSearch(t *testing.T, r *kit.Run, pool *c25sPool, ph c25sPhase, multi bo
 				}
 			}
 		}
+		if skipped > 0 {
+			perDepth = append(perDepth, fmt.Sprintf("depth %d: %d of %d histories run when the time budget was used up", d, len(jobs)-skipped, len(jobs)))
+			r.Cap("batch size %d: time budget used up in depth %d (%d of %d histories of that depth run and judged); all histories up to depth %d are complete", ph.BatchSz, d, len(jobs)-skipped, len(jobs), completed)
+			break
+		}
 		completed = d
 		perDepth = append(perDepth, fmt.Sprintf("depth %d: %d histories run, %d new states, %d merged histories kept for a spot check", d, len(jobs), newStates, spots))
 		frontier = next
@@ -1178,7 +1216,7 @@ func TestVerif_C25_service(t *testing.T) {
 	for _, ph := range phases {
 		pd = append(pd, fmt.Sprintf("length <= %d with batch size %d", ph.Depth, ph.BatchSz))
 	}
-	r.Rule("breadth-first search over all histories of " + strings.Join(pd, ", ") + " over {feed (next log index; 1-3 row changes, INSERT/UPDATE/DELETE on tables t/u, by ordinal), same-entry (one more group of the entry just handed over, <=3 per entry, only directly after a hand-over, only if the real db.CDCStreamer produces such groups), tick (150 ms: past the 100 ms batch delay and one 131 ms retry), long-tick (2.5 s: past the 2003 ms HWM interval), leader-gain/-loss, endpoint-down/-up (down alternates transport error / HTTP 503, up alternates 200 / 202), snapshot-sync, restart (Stop, new Service on the same directory, the groups of the entries after the last snapshot handed over again), other-leader-delivers-{all,1,ahead} (another leader delivered every entry <= {highest handed over, 1, highest+1} and broadcast that as HWM; only while this node is not leader)}; every history+action is replayed on a fresh real cdc.Service (retry forever) in a synctest bubble, then closed with leader-gain + endpoint-up + long-ticks until nothing moves, and judged; histories whose canonical state key (roles, model, delivered set, HWM, durable FIFO content, FIFO highest key and has-next, highest batch this incarnation took from the FIFO, batcher content, own queued HWM broadcasts, follower loop's accepted HWM) was seen before are not extended; states = distinct keys, transitions = actions executed on the real service, distinct = observed (action, service reaction, closing outcome) triples")
+	r.Rule("breadth-first search over all histories of " + strings.Join(pd, ", ") + " over {feed (next log index; 1-3 row changes, INSERT/UPDATE/DELETE on tables t/u, by ordinal), same-entry (one more group of the entry just handed over, <=3 per entry, only directly after a hand-over, only if the real db.CDCStreamer produces such groups), tick (150 ms: past the 100 ms batch delay and one 131 ms retry), long-tick (2.5 s: past the 2003 ms HWM interval), leader-gain/-loss, endpoint-down/-up (down alternates transport error / HTTP 503, up alternates 200 / 202), endpoint-fails-once (the next request only), snapshot-sync, restart (Stop, new Service on the same directory, the groups of the entries after the last snapshot handed over again), other-leader-delivers-{all,1,ahead} (another leader delivered every entry <= {highest handed over, 1, highest+1} and broadcast that as HWM; only while this node is not leader)}; every history+action is replayed on a fresh real cdc.Service (retry forever) in a synctest bubble, then closed with leader-gain + endpoint-up + long-ticks until nothing moves, and judged; histories whose canonical state key (roles, model, delivered set, HWM, durable FIFO content, FIFO highest key and has-next, highest batch this incarnation took from the FIFO and highest batch tried in this tenure, batcher content, own queued HWM broadcasts, follower loop's accepted HWM) was seen before are not extended; states = distinct keys, transitions = actions executed on the real service, distinct = observed (action, service reaction, closing outcome) triples")
 	multi, perr := c25sMultiGroupEntries()
 	if perr != nil {
 		t.Fatalf("C25 service harness: %v", perr)
@@ -1205,7 +1243,15 @@ func TestVerif_C25_service(t *testing.T) {
 		if err != nil {
 			t.Fatal(err)
 		}
-		rep := c25sExec(t, c25sScratchBase(t), c25sJob{H: h, BatchSz: rp.BatchSize, Multi: true, Trace: true})
+		base := c25sScratchBase(t)
+		if v := os.Getenv("VERIF_C25S_REPEAT"); v != "" { // experiments only: cost of one history
+			var n int
+			fmt.Sscan(v, &n)
+			for i := 0; i < n; i++ {
+				c25sExec(t, base, c25sJob{H: h, BatchSz: rp.BatchSize, Multi: true})
+			}
+		}
+		rep := c25sExec(t, base, c25sJob{H: h, BatchSz: rp.BatchSize, Multi: true, Trace: true})
 		r.Eval(1)
 		r.Transition(rep.Steps)
 		for _, l := range rep.Trace {
@@ -1223,7 +1269,7 @@ func TestVerif_C25_service(t *testing.T) {
 		return
 	}
 
-	pool := &c25sPool{n: 16}
+	pool := &c25sPool{n: 16, base: c25sScratchBase(t)}
 	states, nEval := 0, 0
 	for _, ph := range phases {
 		n, done := c25sSearch(t, r, pool, ph, multi, &nEval)
